@@ -174,3 +174,10 @@ VARIANTS += [
  V("c04-w1-seqnum-mutated-later", "C04", "C04.W1", "iterator.go",
    "func (i *Iterator) invalidate() {", "func (i *Iterator) invalidate() {\n	i.seqNum = i.seqNum + 0"),
 ]
+
+VARIANTS += [
+ V("c46-k1-parse-drops-key", "C46", "C46.K1", "options.go",
+   '			case "wal_bytes_per_sync":', '			case "wal_bytes_per_sync_removed":'),
+ V("c46-k3-parsed-into-wrong-field", "C46", "C46.K3", "options.go",
+   '			case "l0_compaction_file_threshold":\n				o.L0CompactionFileThreshold, err = strconv.Atoi(value)', '			case "l0_compaction_file_threshold":\n				o.L0CompactionThreshold, err = strconv.Atoi(value)'),
+]
